@@ -231,7 +231,9 @@ class BatchOracle:
         if M.shape[1] == 0:
             return np.zeros((0, len(obs_all))), M, my, Si
         W = M.T @ Si @ M
-        if np.linalg.cond(W) > 1e10:
+        ev = np.linalg.eigvalsh((W + W.T) / 2)
+        # absolute as well as relative: a 1x1 information matrix of size 1e-34 (loadings that are zero up to rounding) has condition number 1
+        if ev.min() < 1e-10 or ev.max() / ev.min() > 1e10:
             raise ValueError("BatchOracle: the fixed unknown initial condition is not identified by these observations")
         return np.linalg.solve(W, M.T @ Si), M, my, Si
 
